@@ -235,6 +235,8 @@ class Contract:
                 s = specs[k]
                 if s.when is not None:
                     st.assume(s.when)
+                    if not st.feasible():
+                        raise PathEnd('exception not possible in this state')
                 self.havoc(ip, a, s.modifies if s.modifies is not None else self.modifies(ip, a))
                 for item in s.ensures:
                     self._assume_post(ip, item, 'raises:' + s.name)
@@ -446,6 +448,8 @@ class ProducerContract(Contract):
             # YieldSpec.after hooks change: it is taken BEFORE the step's havoc of the shared heap
             if k < len(specs) and specs[k].when is not None and not getattr(specs[k], 'when_after_havoc', False):
                 st.assume(specs[k].when(ip, a, gen.g))
+                if not st.feasible():
+                    raise PathEnd('yield not possible in this state')
             self.havoc(ip, a, self.p_modifies(ip, a))
             self.step_effects(ip, a, gen, choice)
             if k < len(specs):
